@@ -66,7 +66,7 @@ func (w *worker) run(ctx context.Context) {
 
 	flds := field.Parse(w.srcTags.String())
 	var si siterator
-	si.init(flds, cur)
+	si.init(flds, cur, w.pp.fltF)
 	werrs := 1
 
 	for ctx.Err() == nil {
